@@ -38,7 +38,10 @@ Cat == <<
   E("s", "default", "P", "str", 24),
   E("a", "group", "P", "str", 1),     E("b", "group", "G", "str", 2),     E("a", "group", "G", "str", 2),
   E("export", "value", "B", "bool", 0), E("value", "unit", "P", "str", 1), E("value", "unit", "P", "int", 4),
-  E("n", "unit", "P", "str", 1),      E("n", "value", "B", "float", 13),  E("n", "value", "B", "float", 15) >>
+  E("n", "unit", "P", "str", 1),      E("n", "value", "B", "float", 13),  E("n", "value", "B", "float", 15),
+  \* accessibles declared optional in the base class: not implemented (ou, od) / implemented (oi, oc)
+  E("ou", "value", "B", "int", 6),    E("ou", "max", "P", "int", 20),     E("od", "visibility", "P", "int", 4),
+  E("oi", "value", "B", "int", 10),   E("oi", "max", "P", "int", 120),    E("oc", "visibility", "P", "int", 4) >>
 BaseEntries == {E("mp", "value", "B", "int", 6), E("n", "value", "B", "int", 10)}
 
 Chosen == {Cat[j] : j \in sel}
